@@ -25,25 +25,35 @@ from pgverif.gen import spaces as S
 from pgverif.monitors import genoref as G
 
 TIERS = {
-    'quick': dict(shards=8, cases=40, dnas=10, chains=4, timeout_s=600),
-    'thorough': dict(shards=16, cases=1000, dnas=20, chains=8, timeout_s=3000,
+    'quick': dict(shards=8, cases=12, dnas=6, handed=3, per_member_sources=14,
+                  chains=3, proposals=7, max_points=10, timeout_s=900,
+                  case_timeout_s=300),
+    'thorough': dict(shards=16, cases=80, dnas=8, handed=4, per_member_sources=24,
+                     chains=5, proposals=10, max_points=18, all_views_per_case=True,
+                     timeout_s=3000,
                      case_timeout_s=300),
 }
 RULE = ('case = one random search-space description of gen/spaces.random_space '
-        '(<= 3 top-level elements, nesting depth <= 3, choices of k <= 3 of n <= 4 in '
-        'all distinct/sorted modes, floats, custom points, unique names on about half '
-        'of the points, pairwise distinct literal values of five kinds on about half '
-        'of the choices). Per case: `dnas` reference members rebuilt from raw numbers '
-        'are pushed through every view (to_numbers flat/nested, to_dict over 3 key '
-        'types x 5 value types x 3 multi-choice modes x include-inactive (90 views) '
-        'plus 5 filters, JSON compact/verbose/text/raw) and compared with the '
-        'reference decision-point map, reconstructed with from_numbers / DNA() / '
-        'from_dict / from_json and looked up by id, KeyPath, name, decision point; '
-        'then DNAs handed out by the library (iter_dna, first/next_dna, random_dna, '
-        'generators, parse, from_numbers, from_dict, from_fn, clone/copy, JSON + '
-        'use_spec, re-binding to a second build of the spec) and `chains` chains of '
-        '1-4 evolution operators (2 mutators, 9 recombinators) are compared node by '
-        'node and view by view with a DNA rebuilt from their raw numbers. '
+        '(<= 3 top-level elements, nesting depth <= 3, <= max_points decision points, '
+        'choices of k <= 3 of n <= 4 in all distinct/sorted modes, floats, custom '
+        'points, unique names on about half of the points, pairwise distinct literal '
+        'values of five kinds on about half of the choices). Per case: `dnas` '
+        'reference members rebuilt from raw numbers are pushed through the views - '
+        'to_numbers flat/nested, JSON compact/verbose/text/raw, to_dict over 3 key '
+        'types x 5 value types x 3 multi-choice modes x include-inactive (all 90 views '
+        'on the first two members, a rotating third on the others) plus 5 filters - '
+        'and compared with the reference decision-point map; reconstructed with '
+        'from_numbers / DNA() / from_json and with from_dict (every view once per case '
+        'in thorough, every second view per case in quick, the 9 most default views '
+        'always); looked up by id, KeyPath, name, decision point and multi-choice '
+        'parent. Then DNAs handed out by the library (iter_dna, first/next_dna, '
+        'Sweeping, random_dna with and without previous_dna, geno.Random, parse, '
+        'from_numbers, from_dict, from_fn, clone/copy deep and shallow, JSON + use_spec, '
+        're-binding from a second build of the spec), `chains` chains of 1-4 evolution '
+        'operators (2 mutators, 9 recombinators; outputs healed between steps) and '
+        'the proposals of a short Evolution run are compared node by node (node.spec '
+        'vs the reference point of that position) and view by view (5 fixed views + 1 '
+        'random, the full product on 5 %) with a DNA rebuilt from their raw numbers. '
         'Non-trivial = the space has a multi-choice or a conditional sub-space and at '
         'least one handed-out DNA was compared; distinct by description.')
 REQUIRED_COUNTERS = ['to_dict_content_checks', 'from_dict_roundtrips',
@@ -341,7 +351,7 @@ def lib_view(sp, d, v, flt=None):
     nk = sp.key_norm(k)
     if nk in out:
       return {('duplicate-normalised-key', repr(nk)): True}
-    out[nk] = norm_value(val)
+    out[nk] = _shared(sp, nk, norm_value(val))
   return out
 
 
@@ -434,8 +444,8 @@ def check_json(ctx, sp, m, d, case):
     r = guarded(fn)
     if isinstance(r, Raised) or not isinstance(r, pg.DNA) or not same_dna(r, d):
       ctx.violation('roundtrip', name,
-                    f'{name} of {d!r} (json {guarded(lambda: d.to_json())!r}) gives '
-                    f'{r!r}', case)
+                    f'{name} of the DNA {m.nested!r} (json '
+                    f'{guarded(lambda: d.to_json())!r}) gives {r!r}', case)
       continue
     out.append((name, r))
   raw = guarded(lambda: d.to_json(compact=True, type_info=False))
@@ -446,35 +456,80 @@ def check_json(ctx, sp, m, d, case):
   return out
 
 
-def check_to_dict(ctx, sp, m, d, case):
-  """Content of every view vs the reference, and from_dict round trip."""
+def _shared(sp, k, x):
+  """A name the library repeats on several points: only the active decisions
+  in order are compared (how inactive copies show is left open)."""
+  if isinstance(k, str) and len(sp.name_ids.get(k, ())) > 1:
+    xs = x if isinstance(x, list) else [x]
+    return ('shared-name', [y for y in xs if y is not None])
+  return x
+
+
+def ref_view(sp, m, v, rf=None):
+  return {k: _shared(sp, k, norm_ref(x))
+          for k, x in ref_to_dict(sp, m, v, rf).items()}
+
+
+def check_to_dict(ctx, sp, m, d, case, idx, nmembers):
+  """Content of the views vs the reference, and from_dict round trips.
+
+  Member `idx` of `nmembers`: the first two members are compared on all 90
+  views, the others on a rotating third; view j is reconstructed with
+  from_dict on member j % nmembers (every view once per case in the
+  thorough tier, every second view - alternating with the case index - in the
+  quick tier) and the nine most default views on the first member.
+  """
   c = ctx.counters
   spec = sp.spec
+  full_rt = bool(ctx.params.get('all_views_per_case', False))
   content_bad, rt_bad = None, None
-  for v in VIEWS:
+  for j, v in enumerate(VIEWS):
+    do_content = idx < 2 or j % 3 == idx % 3
+    do_rt = ((j % nmembers == idx and (full_rt or j % 2 == ctx.index % 2))
+             or (j < 9 and idx == 0))
+    if not (do_content or do_rt):
+      continue
     c['to_dict_content_checks'] += 1
     have = lib_view(sp, d, v)
-    want = {k: norm_ref(x) for k, x in ref_to_dict(sp, m, v).items()}
+    want = ref_view(sp, m, v)
     if isinstance(have, Raised) or have != want:
       if content_bad is None:
         content_bad = (v, have, want)
+      continue
+    if not do_rt:
       continue
     # reconstruction from a fresh dict (from_dict consumes list values)
     c['from_dict_roundtrips'] += 1
     ints = v['vt'] == 'literal' and sp.int_lits
     if ints:
       c['from_dict_int_literals'] += 1
+    # the flag only concerns int values: views without raw ints may pass it
+    flag = ints or (v['vt'] != 'value' and ctx.rng.random() < 0.2)
     r = guarded(lambda: pg.DNA.from_dict(lib_to_dict(d, v), spec,
-                                         use_ints_as_literals=ints))
+                                         use_ints_as_literals=flag))
     if isinstance(r, Raised) or not same_dna(r, d):
+      if flag and not ints:
+        c['from_dict_failed_with_optional_flag'] += 1
       if rt_bad is None:
         rt_bad = (v, r, ints)
+    elif j % 10 == idx:
+      # the reconstructed DNA is itself handed out by the library
+      check_alignment(ctx, sp, r, 'from_dict', case)
   if content_bad is not None:
-    v, have, want = content_bad
+    # name the most default view that fails (not all were run on this member)
+    for v in VIEWS:
+      have, want = lib_view(sp, d, v), ref_view(sp, m, v)
+      if isinstance(have, Raised) or have != want:
+        break
     ctx.violation('to_dict-content', f'to_dict[{view_name(v)}]',
                   f'{d!r}: to_dict gives {have!r}, reference {want!r}', case)
   if rt_bad is not None:
-    v, r, ints = rt_bad
+    for v in VIEWS:
+      ints = v['vt'] == 'literal' and sp.int_lits
+      r = guarded(lambda: pg.DNA.from_dict(lib_to_dict(d, v), spec,
+                                           use_ints_as_literals=ints))
+      if isinstance(r, Raised) or not same_dna(r, d):
+        break
     ctx.violation('roundtrip',
                   f'from_dict[{view_name(v, "ints-as-literals" if ints else None)}]',
                   f'{d!r}: to_dict = {guarded(lambda: lib_to_dict(d, v))!r}; '
@@ -482,11 +537,10 @@ def check_to_dict(ctx, sp, m, d, case):
   # filtered views: content only
   fbad = None
   for name, lf, rf in FILTERS:
-    for v in (VIEWS[0], VIEWS[ctx.rng.randrange(len(VIEWS))],
-              VIEWS[ctx.rng.randrange(len(VIEWS))]):
+    for v in (VIEWS[0], VIEWS[ctx.rng.randrange(len(VIEWS))]):
       c['to_dict_filter_checks'] += 1
       have = lib_view(sp, d, v, lf)
-      want = {k: norm_ref(x) for k, x in ref_to_dict(sp, m, v, rf).items()}
+      want = ref_view(sp, m, v, rf)
       if (isinstance(have, Raised) or have != want) and fbad is None:
         fbad = (name, v, have, want)
   if fbad is not None and content_bad is None:
@@ -534,12 +588,12 @@ def check_lookups(ctx, sp, m, d, case):
   for p in sp.all_points:
     dp = sp.canon[p.id]
     expect_point(run(lambda: _lookup(d, p.id)), p.id, 'by-id')
-    expect_point(run(lambda: _lookup(d, dp.id)), p.id, 'by-keypath')
+    expect_point(run(lambda: _lookup(d, dp.id)), p.id, 'by-id')
     expect_point(run(lambda: _lookup(d, dp)), p.id, 'by-decision-point')
-    expect_point(run(lambda: ('ok', d.get(p.id, 'dflt'))), p.id, 'get')
+    expect_point(run(lambda: ('ok', d.get(p.id, 'dflt'))), p.id, 'by-id')
   for pid, subs in multi.items():
     dp = sp.canon[pid]
-    for how, key in (('by-parent-id', pid), ('by-parent-decision-point', dp)):
+    for how, key in (('by-parent', pid), ('by-parent', dp)):
       c['lookup_checks'] += 1
       res = run(lambda key=key: _lookup(d, key))
       val = res[1]
@@ -550,7 +604,8 @@ def check_lookups(ctx, sp, m, d, case):
         ok = (res[0] == 'ok' and isinstance(val, list) and len(val) == len(subs)
               and all(_is_node(x, m.node_of[a]) for x, a in zip(val, act)))
       if not ok:
-        bad.setdefault(how, (pid, val, act))
+        bad.setdefault(how, (pid, val, [None if a is None else m.node_of[a]
+                                        for a in act]))
   # names
   for name, ids in sp.name_ids.items():
     c['lookup_checks'] += 1
@@ -578,7 +633,10 @@ def check_lookups(ctx, sp, m, d, case):
       got = [x for x in got if x is not None]
       ok = len(got) == len(want) and all(_is_node(x, w) for x, w in zip(got, want))
     if not ok:
-      bad.setdefault('by-name', (name, val, want))
+      how = 'by-name' + (':inactive' if not want else '')
+      if res[0] == 'keyerror':
+        val = 'KeyError'
+      bad.setdefault(how, (name, val, want or None))
   # an unknown key: default / KeyError
   c['lookup_checks'] += 1
   res = run(lambda: ('ok', d.get('no.such.point', 'dflt')))
@@ -640,9 +698,52 @@ def rebuild(sp, m):
   return pg.DNA(m.nested, spec=sp.spec)
 
 
-def check_alignment(ctx, sp, d, source, case, views=None):
-  """Returns (status, healed DNA or None)."""
+ALIGN_VIEWS = [
+    dict(kt='id', vt='value', mck='subchoice', inactive=False),   # default
+    dict(kt='id', vt='dna', mck='both', inactive=True),           # lookups
+    dict(kt='dna_spec', vt='value', mck='parent', inactive=True),  # recombinators
+    dict(kt='dna_spec', vt='dna', mck='parent', inactive=False),  # permutations
+    dict(kt='name_or_id', vt='choice_and_literal', mck='both', inactive=False),
+]
+
+OTHER_VIEWS = [
+    ('literal_value', lambda sp, x: x.literal_value),
+    ('named_decisions', lambda sp, x: {
+        k: norm_value(v) for k, v in x.named_decisions.items()}),
+    ('decision_ids', lambda sp, x: [i.path for i in x.decision_ids]),
+    ('format[as_dict]', lambda sp, x: x.format(as_dict=True)),
+    ('multi_choice_spec', lambda sp, x: [
+        sp.key_norm(n.multi_choice_spec) if n.multi_choice_spec is not None
+        else None for n in lib_nodes(x)]),
+]
+
+
+# Route -> mechanism of the keys (the counters keep the route).
+MECHANISM = {
+    'iter_dna': 'iteration', 'first_dna': 'iteration', 'next_dna': 'iteration',
+    'DNA.next_dna': 'iteration', 'DNA.iter_dna': 'iteration',
+    'Sweeping': 'iteration',
+    'random_dna': 'random_dna', 'pg.random_dna': 'random_dna',
+    'geno.Random': 'random_dna', 'random_dna[previous]': 'random_dna',
+    'parse': 'parse', 'DNA(spec=)': 'parse', 'use_spec': 'parse',
+    'clone[shallow]': 'clone', 'clone[deep]': 'clone', 'pg.clone': 'clone',
+    'copy.copy': 'clone', 'copy.deepcopy': 'clone', 'clone[after-views]': 'clone',
+    'from_json+use_spec': 'from_json+use_spec',
+    'from_json[verbose]+use_spec': 'from_json+use_spec',
+    'use_spec[rebind]': 'rebind', 'clone+use_spec[rebind]': 'rebind',
+    'evolution[init]': 'random_dna',
+}
+
+
+def check_alignment(ctx, sp, d, route, case, full=False):
+  """Views and node bindings of a handed-out DNA vs a DNA rebuilt from its raw
+  numbers. Returns (status, usable DNA or None): the DNA itself when aligned,
+  the rebuilt one when not, None for non-members."""
   c = ctx.counters
+  source = MECHANISM.get(route, route)
+  if route.startswith('evolution:'):
+    source = route.split(':', 1)[1]        # the operator inside the pipeline
+  case = dict(case, route=route)
   if not isinstance(d, pg.DNA):
     return 'not-a-dna', None
   flat = guarded(lambda: d.to_numbers())
@@ -652,51 +753,55 @@ def check_alignment(ctx, sp, d, source, case, views=None):
   why = G.why_not(sp.desc, flat)
   if why is not None:
     c['handed_out_nonmember_skipped'] += 1
-    c['nonmember:' + source] += 1
+    c['nonmember:' + route] += 1
     return 'nonmember', None
   m = Member(sp, flat)
-  r = rebuild(sp, m)
   c['alignment_checks'] += 1
-  c['source:' + source] += 1
+  c['source:' + route] += 1
   ctx.seen('aligned_dnas', (S.show(sp.desc), m.flat))
   if dna_shape(d) != m.tree:
     ctx.violation('handed-out-shape', source,
                   f'{d!r} has the decisions {list(flat)!r} of a member whose '
                   f'documented tree is {m.nested!r}', case)
-    return 'bad', r
+    return 'bad', rebuild(sp, m)
   if guarded(lambda: d.spec) is None:
     ctx.violation('unbound', source, f'{d!r} is not bound to a spec', case)
-    return 'bad', r
+    return 'bad', rebuild(sp, m)
   if check_node_binding(ctx, sp, m, d, source, case) is not None:
-    return 'bad', r
+    return 'bad', rebuild(sp, m)
+  views = list(ALIGN_VIEWS)
+  views.append(VIEWS[ctx.rng.randrange(len(VIEWS))])
+  if full:
+    views = VIEWS
+    c['alignment_full_product'] += 1
+  r = None
   first = None
-  for v in (views or VIEWS):
+  for v in views:
     c['alignment_view_checks'] += 1
-    a, b = lib_view(sp, d, v), lib_view(sp, r, v)
+    a = lib_view(sp, d, v)
+    # fast path: the reference; the rebuilt DNA decides when they differ
+    if not isinstance(a, Raised) and a == ref_view(sp, m, v):
+      continue
+    r = r or rebuild(sp, m)
+    b = lib_view(sp, r, v)
     if not views_equal(a, b):
-      first = (v, a, b)
+      first = (view_name(v), a, b)
       break
-  if first is None:
-    for how, fn in (('literal_value', lambda x: x.literal_value),
-                    ('named_decisions', lambda x: {
-                        k: norm_value(v) for k, v in x.named_decisions.items()}),
-                    ('decision_ids', lambda x: [i.path for i in x.decision_ids]),
-                    ('format[as_dict]', lambda x: x.format(as_dict=True)),
-                    ('multi_choice', lambda x: [
-                        sp.key_norm(n.multi_choice_spec) if n.multi_choice_spec
-                        is not None else None for n in lib_nodes(x)])):
+    c['alignment_view_same_as_rebuilt_not_reference'] += 1
+  if first is None and (full or ctx.rng.random() < 0.3):
+    r = r or rebuild(sp, m)
+    for how, fn in OTHER_VIEWS:
       c['alignment_view_checks'] += 1
-      a, b = guarded(lambda: fn(d)), guarded(lambda: fn(r))
+      a, b = guarded(lambda: fn(sp, d)), guarded(lambda: fn(sp, r))
       if isinstance(a, Raised) or isinstance(b, Raised):
         same = isinstance(a, Raised) and isinstance(b, Raised)
       else:
         same = a == b
       if not same:
-        first = ({'other': how}, a, b)
+        first = (how, a, b)
         break
   if first is not None:
-    v, a, b = first
-    vn = v.get('other') or view_name(v)
+    vn, a, b = first
     ctx.violation('view-differs', source,
                   f'{d!r}: view {vn} is {a!r}; a DNA rebuilt from the same numbers '
                   f'{list(flat)!r} gives {b!r}', case)
@@ -739,11 +844,11 @@ def _from_fn_generator(sp, m):
 
 
 def library_sources(ctx, sp, sp2, members, case):
-  """Yields (source name, thunk returning a DNA or list of DNAs)."""
+  """(source name, thunk returning a DNA or a list of DNAs)."""
   rng = ctx.rng
   spec = sp.spec
   r = pyrandom.Random(rng.randrange(1 << 30))
-  n = max(2, ctx.params['dnas'] // 3)
+  n = int(ctx.params['handed'])
   finite = G.is_finite(sp.desc)
   out = []
   if finite:
@@ -755,7 +860,7 @@ def library_sources(ctx, sp, sp2, members, case):
       a.setup(spec)
       res = []
       try:
-        for _ in range(3):
+        for _ in range(2):
           res.append(a.propose())
       except StopIteration:
         pass
@@ -769,25 +874,21 @@ def library_sources(ctx, sp, sp2, members, case):
     a.setup(spec)
     return [a.propose() for _ in range(2)]
   out.append(('geno.Random', gen_random))
-  for m in members[:max(2, n)]:
+  per = []
+  for m in members:
     start = lambda m=m: pg.DNA(m.nested, spec=spec)
     if finite:
-      out.append(('next_dna', lambda s=start: spec.next_dna(s())))
-      out.append(('DNA.next_dna', lambda s=start: s().next_dna()))
-      out.append(('DNA.iter_dna',
+      per.append(('next_dna', lambda s=start: spec.next_dna(s())))
+      per.append(('DNA.next_dna', lambda s=start: s().next_dna()))
+      per.append(('DNA.iter_dna',
                   lambda s=start: list(itertools.islice(s().iter_dna(), 2))))
-    out.append(('random_dna[previous]',
+    per.append(('random_dna[previous]',
                 lambda s=start: spec.random_dna(r, previous_dna=s())))
-    out.append(('parse', lambda m=m: pg.DNA.parse(m.nested, spec=spec)))
-    out.append(('DNA(spec=)', lambda m=m: pg.DNA(m.nested, spec=spec)))
-    out.append(('use_spec', lambda m=m: pg.DNA(m.nested).use_spec(spec)))
-    out.append(('from_numbers',
+    per.append(('parse', lambda m=m: pg.DNA.parse(m.nested, spec=spec)))
+    per.append(('use_spec', lambda m=m: pg.DNA(m.nested).use_spec(spec)))
+    per.append(('from_numbers',
                 lambda m=m: pg.DNA.from_numbers(list(m.flat), spec)))
-    v = VIEWS[rng.randrange(len(VIEWS))]
-    ints = v['vt'] == 'literal' and sp.int_lits
-    out.append(('from_dict', lambda s=start, v=v, ints=ints: pg.DNA.from_dict(
-        lib_to_dict(s(), v), spec, use_ints_as_literals=ints)))
-    out.append(('from_fn+use_spec', lambda m=m: pg.DNA.from_fn(
+    per.append(('from_fn+use_spec', lambda m=m: pg.DNA.from_fn(
         spec, _from_fn_generator(sp, m)).use_spec(spec)))
 
     def with_meta(s=start):
@@ -796,26 +897,25 @@ def library_sources(ctx, sp, sp2, members, case):
       d.set_metadata('b', 2)
       d.set_userdata('u', 3, cloneable=True)
       return d
-    out.append(('clone[shallow]', lambda s=with_meta: s().clone()))
-    out.append(('clone[deep]', lambda s=with_meta: s().clone(deep=True)))
-    out.append(('pg.clone', lambda s=start: pg.clone(s(), deep=True)))
-    out.append(('copy.copy', lambda s=start: copy.copy(s())))
-    out.append(('copy.deepcopy', lambda s=with_meta: copy.deepcopy(s())))
-    out.append(('clone-of-child', lambda s=start: _clone_via_parent(s())))
-    out.append(('from_json+use_spec',
-                lambda s=with_meta: pg.from_json(s().to_json()).use_spec(spec)))
-    out.append(('from_json[verbose]+use_spec', lambda s=with_meta: pg.from_json_str(
+    per.append(('clone[shallow]', lambda s=with_meta: s().clone()))
+    per.append(('clone[deep]', lambda s=with_meta: s().clone(deep=True)))
+    per.append(('pg.clone', lambda s=start: pg.clone(s(), deep=True)))
+    per.append(('copy.copy', lambda s=start: copy.copy(s())))
+    per.append(('copy.deepcopy', lambda s=with_meta: copy.deepcopy(s())))
+    per.append(('clone[after-views]', lambda s=start: _clone_after_views(s())))
+    per.append(('from_json[verbose]+use_spec', lambda s=with_meta: pg.from_json_str(
         pg.to_json_str(s(), compact=False)).use_spec(spec)))
     # a DNA bound to another build of the same space, re-bound to this one
-    out.append(('use_spec[rebind]', lambda m=m: pg.DNA(
+    per.append(('use_spec[rebind]', lambda m=m: pg.DNA(
         m.nested, spec=sp2.spec).use_spec(spec)))
-    out.append(('clone+use_spec[rebind]', lambda m=m: pg.DNA(
+    per.append(('clone+use_spec[rebind]', lambda m=m: pg.DNA(
         m.nested, spec=sp2.spec).clone(deep=True).use_spec(spec)))
-  return out
+  rng.shuffle(per)
+  return out + per[:int(ctx.params['per_member_sources'])]
 
 
-def _clone_via_parent(d):
-  """Clone, read a view (fills the caches), clone again."""
+def _clone_after_views(d):
+  """Clone, read views (fills the caches), clone again."""
   x = d.clone(deep=True)
   x.to_dict()
   _ = x.named_decisions
@@ -850,6 +950,11 @@ def operators(rng):
   ]
 
 
+# The mutators edit a clone in place (the recombinators rebuild through
+# from_dict), so they are drawn more often.
+OP_WEIGHTS = [4, 4, 1, 1, 1, 1, 1, 1, 1, 1, 1]
+
+
 def run_chain(ctx, sp, population, case):
   """One chain of 1-4 operators over a healed population."""
   rng = ctx.rng
@@ -858,7 +963,7 @@ def run_chain(ctx, sp, population, case):
   pop = list(population)
   trace = []
   for _ in range(rng.randint(1, 4)):
-    name, arity, make = rng.choice(ops)
+    name, arity, make = rng.choices(ops, weights=OP_WEIGHTS)[0]
     op = guarded(make)
     if isinstance(op, Raised):
       c['operator_ctor_raised:' + name] += 1
@@ -880,8 +985,7 @@ def run_chain(ctx, sp, population, case):
       continue
     new = []
     for o in outs:
-      status, healed = check_alignment(ctx, sp, o, name, ccase,
-                                       views=OPERATOR_VIEWS)
+      status, healed = check_alignment(ctx, sp, o, name, ccase)
       if status in ('ok', 'bad'):
         c['operator_outputs_checked'] += 1
       if any(o is x for x in inputs):
@@ -893,25 +997,84 @@ def run_chain(ctx, sp, population, case):
   return trace
 
 
-# A representative subset for operator outputs (the views the operators
-# themselves and the lookups rely on, and the default).
-OPERATOR_VIEWS = [v for v in VIEWS if (
-    (v['kt'], v['vt'], v['mck']) in (
-        ('id', 'value', 'subchoice'), ('id', 'dna', 'both'),
-        ('dna_spec', 'dna', 'parent'), ('dna_spec', 'value', 'parent'),
-        ('name_or_id', 'literal', 'subchoice'), ('id', 'choice_and_literal', 'parent'),
-        ('name_or_id', 'choice', 'both')))]
+def run_evolution(ctx, sp, case):
+  """A short Evolution run around one operator: every proposal is checked."""
+  from pyglove.ext import evolution as EV                   # pylint: disable=g-import-not-at-top
+  rng = ctx.rng
+  c = ctx.counters
+  name, _, make = rng.choices(operators(rng), weights=OP_WEIGHTS)[0]
+  seed = rng.randrange(1000)
+
+  def build():
+    algo = EV.Evolution(
+        EV.selectors.Random(2, seed=seed) >> make(),
+        population_init=(pg.geno.Random(seed=seed), 3),
+        population_update=EV.selectors.Last(4))
+    algo.setup(sp.spec)
+    return algo
+  algo = guarded(build)
+  if isinstance(algo, Raised):
+    c['evolution_raised:' + name] += 1
+    return
+  ecase = dict(case, evolution=name)
+  for step in range(int(ctx.params['proposals'])):
+    d = guarded(algo.propose)
+    if isinstance(d, Raised):
+      c['evolution_raised:' + name] += 1
+      return
+    c['evolution_proposals'] += 1
+    route = 'evolution[init]' if step < 3 else 'evolution:' + name
+    status, _ = check_alignment(ctx, sp, d, route, ecase)
+    if status == 'nonmember':
+      return
+    if status in ('ok', 'bad') and step >= 3:
+      c['operator_outputs_checked'] += 1
+    r = guarded(lambda: algo.feedback(d, float(rng.random())))
+    if isinstance(r, Raised):
+      c['evolution_raised:' + name] += 1
+      return
 
 
 # --------------------------------------------------------------------------
 
 def space_for(ctx):
+  """A random description with at most `max_points` decision points."""
   rng = ctx.rng
-  fl = rng.choice([0.0, 0.1, 0.2])
-  return S.random_space(rng, max_depth=rng.choice([1, 2, 2, 3]), max_elems=3,
-                        max_k=3, max_n=4, floats=fl, customs=fl / 3,
-                        names=rng.choice([0.0, 0.5, 0.8]),
-                        lits=rng.choice([0.0, 0.5, 0.9]))
+  desc = None
+  lower = rng.choice([2, 4, 5, 6])
+  for attempt in range(40):
+    if attempt == 30:
+      lower = 1
+    fl = rng.choice([0.0, 0.0, 0.1, 0.2])
+    depth = rng.choice([1, 2, 2, 3]) if attempt < 30 else 1
+    desc = S.random_space(rng, max_depth=depth, max_elems=3,
+                          max_k=3, max_n=4, floats=fl, customs=fl / 3,
+                          names=rng.choice([0.0, 0.5, 0.8]),
+                          lits=rng.choice([0.0, 0.5, 0.9]),
+                          min_elems=rng.choice([1, 1, 2]))
+    if lower <= S.count_points(desc) <= ctx.params['max_points']:
+      break
+  return desc
+
+
+def pick_members(ctx, sp):
+  rng = ctx.rng
+  desc = sp.desc
+  n = int(ctx.params['dnas'])
+  size = G.size(desc)
+  if size is not None and size <= n:
+    return list(G.enumerate_flat(desc))
+  flats, seen = [], set()
+  for _ in range(n * 4):
+    f = G.random_member(desc, rng)
+    if f not in seen:
+      seen.add(f)
+      flats.append(f)
+    if len(flats) >= n:
+      break
+  # prefer members with many active points first (they exercise more keys)
+  flats.sort(key=len, reverse=True)
+  return flats
 
 
 def run_case(ctx, i):
@@ -925,24 +1088,13 @@ def run_case(ctx, i):
     return
   sp2 = Space(desc)
   c['specs'] += 1
+  c['decision_points'] += len(sp.all_points)
   if not check_spec_lookups(ctx, sp, case):
     return
   # -- members rebuilt from raw numbers: content, round trips, lookups
-  size = G.size(desc)
-  flats = []
-  if size is not None and size <= ctx.params['dnas']:
-    flats = list(G.enumerate_flat(desc))
-  else:
-    seen = set()
-    for _ in range(ctx.params['dnas'] * 3):
-      f = G.random_member(desc, rng)
-      if f not in seen:
-        seen.add(f)
-        flats.append(f)
-      if len(flats) >= ctx.params['dnas']:
-        break
+  flats = pick_members(ctx, sp)
   members = []
-  for f in flats:
+  for idx, f in enumerate(flats):
     m = Member(sp, f)
     mcase = dict(case, member=list(f))
     d = guarded(lambda: rebuild(sp, m))
@@ -958,14 +1110,13 @@ def run_case(ctx, i):
     check_numbers(ctx, sp, m, d, mcase)
     for name, r in check_json(ctx, sp, m, d, mcase):
       # "together with the specification": re-bound, the views are back
-      if name in ('json[compact]', 'json[verbose,str]'):
+      if name == 'json[compact]' and idx < 3:
         r2 = guarded(lambda: r.use_spec(sp.spec))
         if isinstance(r2, Raised):
           ctx.violation('roundtrip', name + '+use_spec', repr(r2), mcase)
         else:
-          check_alignment(ctx, sp, r2, name + '+use_spec', mcase,
-                          views=OPERATOR_VIEWS)
-    check_to_dict(ctx, sp, m, d, mcase)
+          check_alignment(ctx, sp, r2, 'from_json+use_spec', mcase)
+    check_to_dict(ctx, sp, m, d, mcase, idx, len(flats))
     check_lookups(ctx, sp, m, d, mcase)
     ctx.seen('members', (S.show(desc), m.flat))
   if not members:
@@ -976,24 +1127,25 @@ def run_case(ctx, i):
   for source, thunk in library_sources(ctx, sp, sp2, members, case):
     res = guarded(thunk)
     if isinstance(res, Raised):
-      ctx.violation('unexpected-exception', source, repr(res), case)
+      ctx.violation('unexpected-exception', MECHANISM.get(source, source),
+                    repr(res), dict(case, route=source))
       continue
     for d in (res if isinstance(res, list) else [res]):
       if d is None:
         continue                       # next_dna of the last member
-      full = rng.random() < 0.25
       status, healed = check_alignment(ctx, sp, d, source, case,
-                                       views=None if full else OPERATOR_VIEWS)
+                                       full=rng.random() < 0.05)
       handed += status in ('ok', 'bad')
       if healed is not None and len(population) < 4 and rng.random() < 0.5:
         population.append(healed)
-  if not population:
-    population = [rebuild(sp, m) for m in members[:3]]
+  if len(population) < 2:
+    population += [rebuild(sp, m) for m in members[:2]]
   # -- chains of evolution operators
   chains = []
-  for _ in range(ctx.params['chains']):
-    pop = list(population) + [rebuild(sp, rng.choice(members)) for _ in range(2)]
+  for _ in range(int(ctx.params['chains'])):
+    pop = list(population) + [rebuild(sp, rng.choice(members))]
     chains.append(run_chain(ctx, sp, pop, case))
+  run_evolution(ctx, sp, case)
   interesting = any(
       e['t'] == 'choice' and (e['k'] > 1 or any(cd['elems'] for cd in e['cands']))
       for e in desc['elems'])
